@@ -130,6 +130,16 @@ func VerifC10AfterKeyFrame() {
 	verifC10Fixed = nil
 }
 
+// two key frames through one payloader: whatever is kept from the first pair of
+// parameter sets (the second SPS and PPS may or may not equal the first) must
+// not show up in the second
+func VerifC10TwoKeyFrames() {
+	verifC10Fixed = [][2]int{{4, 2}, {0, 2}, {4, 2}, {0, 2}}
+	VerifC10RoundTrip()
+	verifC10Fixed = nil
+	verifCover("C10.two-keyframes.end")
+}
+
 // parameter sets followed by an AUD or filler and then a unit
 func VerifC10DroppedAfterKeyFrame() {
 	verifC10Fixed = [][2]int{{4, 2}, {3, 2}, {0, 2}}
@@ -298,25 +308,28 @@ func VerifC10Decoder() {
 		feed(pl)
 		verifCover("C10.dec.stapa")
 	default:
-		// FU-A: a unit of 3..6 bytes cut at every possible point into 2 or 3 fragments
+		// FU-A: a unit of 3..6 bytes cut at every possible point into a start, an optional
+		// middle and an end fragment; RFC 6184 5.8 lets an FU payload be empty
 		u := verifH264Unit(0, verifCase("size", 3, 6))
-		c1 := verifCase("cut1", 1, len(u.body)-1)
-		c2 := verifCase("cut2", c1, len(u.body)-1)
-		cuts := []int{0, c1, c2, len(u.body)}
-		for k := 0; k < 3; k++ {
-			if cuts[k] == cuts[k+1] {
-				continue
-			}
-			fh := u.typ()
-			if cuts[k] == 0 {
-				fh |= 0x80
-			}
-			if cuts[k+1] == len(u.body) {
-				fh |= 0x40
-			}
-			pl := append([]byte{u.hdr&0x60 | 28, fh}, u.body[cuts[k]:cuts[k+1]]...)
-			verifAssert("C10.dec.fu-head", dep.IsPartitionHead(pl) == (cuts[k] == 0))
+		c1 := verifCase("cut1", 0, len(u.body))
+		c2 := verifCase("cut2", c1, len(u.body))
+		middle := c2 > c1 || verifCase("emptyMiddle", 0, 1) == 1
+		type frag struct {
+			lo, hi int
+			fh     uint8
+		}
+		frags := []frag{{0, c1, 0x80}}
+		if middle {
+			frags = append(frags, frag{c1, c2, 0})
+		}
+		frags = append(frags, frag{c2, len(u.body), 0x40})
+		for k, f := range frags {
+			pl := append([]byte{u.hdr&0x60 | 28, f.fh | u.typ()}, u.body[f.lo:f.hi]...)
+			verifAssert("C10.dec.fu-head", dep.IsPartitionHead(pl) == (k == 0))
 			feed(pl)
+			if f.lo == f.hi {
+				verifCover("C10.dec.fua-empty-fragment")
+			}
 		}
 		want = verifFrame(want, dep.IsAVC, u)
 		verifCover("C10.dec.fua")
